@@ -301,13 +301,16 @@ pub struct Gen<'a> {
     /// list constructors are disabled (the value may become `$`, and SimpleGarnishData cannot look
     /// identifiers up in a list that has unkeyed items — a C16 matter this generator stays away from)
     no_list: u32,
+    /// inside the body of a counted loop a bare `$` would copy the whole loop state into the next state:
+    /// two of them double it per iteration (exponential value trees). Disallowed there.
+    no_dollar: u32,
 }
 
 const WORDS: [&str; 8] = ["a", "abc", "hello", "x y", "Zed", "q1", "lorem", "w"];
 
 impl<'a> Gen<'a> {
     pub fn new(rng: &'a mut Rng, cfg: GenCfg) -> Self {
-        Gen { rng, cfg, fresh: 0, used_idents: vec![], depth_nested: 0, dollar_keyed: true, no_list: 0 }
+        Gen { rng, cfg, fresh: 0, used_idents: vec![], depth_nested: 0, dollar_keyed: true, no_list: 0, no_dollar: 0 }
     }
 
     /// tell the generator what the run's input value will look like
@@ -388,7 +391,7 @@ impl<'a> Gen<'a> {
     fn leaf(&mut self) -> G {
         if self.rng.chance(self.cfg.ident_leaf_pct, 100) {
             self.ident()
-        } else if self.rng.chance(1, 4) {
+        } else if self.rng.chance(1, 4) && self.no_dollar == 0 {
             G::atom("$")
         } else {
             self.literal()
@@ -687,10 +690,11 @@ impl<'a> Gen<'a> {
                 self.depth_nested -= 1;
                 self.dollar_keyed = saved;
                 let p = G::bin("~", G::Nested(Box::new(body)), self.expr(r));
-                if self.rng.chance(2, 3) {
-                    G::bin("<~", p, self.leaf())
-                } else {
-                    p
+                // a partial is called with an argument, with the empty apply, or left as a value
+                match self.rng.below(3) {
+                    0 => G::bin("<~", p, self.leaf()),
+                    1 => G::Suffix("~~", Box::new(p)),
+                    _ => p,
                 }
             }
             20 => {
@@ -721,6 +725,27 @@ impl<'a> Gen<'a> {
         name
     }
 
+    /// a whole program that is a reapply loop at the top level (no enclosing `{ }`), with the input value it
+    /// must be started with: `$.n < N ?> ^~ (:n = $.n + 1, :v = BODY) |> EXIT` and `(:n = 0, :v = 1)`
+    pub fn toplevel_loop(&mut self, budget: usize) -> (G, crate::val::Val) {
+        use crate::val::Val;
+        let n = self.rng.range(0, self.cfg.max_loop);
+        let each = (budget.saturating_sub(6) / 2).max(1);
+        let saved = self.dollar_keyed;
+        self.dollar_keyed = true;
+        self.no_dollar += 1;
+        let body = self.expr(each);
+        self.no_dollar -= 1;
+        let exit = self.expr(each);
+        self.dollar_keyed = saved;
+        let counter = G::Access(Box::new(G::atom("$")), "n".to_string());
+        let cond = G::bin("<", counter.clone(), G::num(n as i64));
+        let next = G::CommaList(vec![G::bin("=", G::atom(":n"), G::bin("+", counter, G::num(1))), G::bin("=", G::atom(":v"), body)]);
+        let chain = G::Chain(vec![("?>", cond, G::Reapply(Box::new(next)))], Some(Box::new(exit)));
+        let sym = |k: &str| Val::Sym(garnish_lang_simple_data::symbol_value(k));
+        (chain, Val::List(vec![Val::pair(sym("n"), Val::Int(0)), Val::pair(sym("v"), Val::Int(1))]))
+    }
+
     /// `{ $.n < N ?> ^~ (:n = $.n + 1, :v = BODY) |> EXIT } <~ (:n = 0, :v = INIT)` — bounded by a
     /// counter, never by the host. The loop state is a list of keyed pairs so that identifiers inside
     /// the loop can still be looked up in `$` on both data implementations.
@@ -730,7 +755,9 @@ impl<'a> Gen<'a> {
         let saved = self.dollar_keyed;
         self.dollar_keyed = true;
         self.depth_nested += 1;
+        self.no_dollar += 1;
         let body = self.expr(each);
+        self.no_dollar -= 1;
         let exit = self.expr(each);
         self.depth_nested -= 1;
         self.dollar_keyed = saved;
